@@ -140,7 +140,13 @@ fn main() {
                 }
             }
         }
-        SolvingResult::Unsatisfiable => reply.push_str("s UNSATISFIABLE\n"),
+        // the failing modes fail on every call, whatever the verdict would have been
+        SolvingResult::Unsatisfiable => match mode.as_str() {
+            "truncated" => reply.push_str("s UNSATISFIA"),
+            "garbage" => reply.push_str("s UNSATISFIABLE\n@@ not a dimacs line @@\n"),
+            "nomodel" | "vnozero" => {}
+            _ => reply.push_str("s UNSATISFIABLE\n"),
+        },
         SolvingResult::Unknown => reply.push_str("s UNKNOWN\n"),
     }
     let _ = out.write_all(reply.as_bytes());
